@@ -468,3 +468,13 @@ Proof.
   - eexists _, _. vm_compute. reflexivity.
   - reflexivity.
 Qed.
+
+(** * The verdict is computed on the target's current data, never on an attached copy *)
+Theorem verdict_ignores_slot : forall (open : N -> N -> option N) data t auth slot1 slot2,
+  target_verdict open data t (mkMsg auth slot1) = target_verdict open data t (mkMsg auth slot2).
+Proof. intros. reflexivity. Qed.
+
+Theorem verdict_on_current_data : forall (open : N -> N -> option N) data t m,
+  target_verdict open data t m =
+  match open (m_auth m) (btsd_of t data) with Some p => TOk p | None => TFail FAILED_SEC end.
+Proof. intros. reflexivity. Qed.
